@@ -36,7 +36,7 @@ Definition is_pow (e : expr) := match e with EPow _ _ => true | _ => false end.
 (* no unary operator directly over an unparenthesised power, anywhere *)
 Fixpoint uop_free (e : expr) : bool :=
   match e with
-  | ELit _ _ | ELitF _ _ | EVar _ => true
+  | ELit _ _ | ELitF _ _ | EVar _ | ESVar _ => true
   | EParen a | ECast _ a => uop_free a
   | ENeg a | ENot a => uop_free a && negb (is_pow a)
   | EPow a b | EArith _ a b | ECmp _ a b | EAnd a b | EOr a b => uop_free a && uop_free b
@@ -55,7 +55,7 @@ Section Static.
     match e with
     | ELit t _ => hint_matches hint (TI t)
     | ELitF t _ => hint_matches hint (TF t)
-    | EVar _ => true
+    | EVar _ | ESVar _ => true
     | EParen a | ENeg a | ENot a => hint_ok hint a
     | EPow a b | EArith _ a b | ECmp _ a b => hint_ok hint a && hint_ok (ety a) b
     | EAnd a b | EOr a b => hint_ok hint a && hint_ok hint b
@@ -64,7 +64,7 @@ Section Static.
 
   Fixpoint float_mod_free (e : expr) : bool :=
     match e with
-    | ELit _ _ | ELitF _ _ | EVar _ => true
+    | ELit _ _ | ELitF _ _ | EVar _ | ESVar _ => true
     | EParen a | ENeg a | ENot a | ECast _ a => float_mod_free a
     | EArith AMod a b => float_mod_free a && float_mod_free b && match ety a with Some (TF _) => false | _ => true end
     | EPow a b | EArith _ a b | ECmp _ a b | EAnd a b | EOr a b => float_mod_free a && float_mod_free b
@@ -78,8 +78,8 @@ Section Static.
 
   Fixpoint sflags_stmt (s : stmt) : list tag :=
     match s with
-    | SDecl i _ e | SAssign i e => sflags_expr (nth_error tys i) e
-    | SCompound i op e =>
+    | SDecl i _ e | SAssign i e | SStateDecl i _ e | SSAssign i e => sflags_expr (nth_error tys i) e
+    | SCompound i op e | SSCompound i op e =>
         sflags_expr (nth_error tys i) e ++
         flag (match op, nth_error tys i with AMod, Some (TF _) => true | _, _ => false end) TgFloatMod
     | SIf c th el => sflags_cond c ++ sflags_block th ++ sflags_els el
@@ -145,7 +145,7 @@ Section Dyn.
   (* flags of the operations evaluated by [eval r e], in evaluation order *)
   Fixpoint dflags (r : env fo) (e : expr) : list tag :=
     match e with
-    | ELit _ _ | ELitF _ _ | EVar _ => []
+    | ELit _ _ | ELitF _ _ | EVar _ | ESVar _ => []
     | EParen a | ENot a => dflags r a
     | ENeg a =>
         dflags r a ++
@@ -200,8 +200,9 @@ Section Dyn.
   (* flags raised while executing; the environment is threaded exactly as in Spec.exec_* *)
   Fixpoint dflags_stmt (r : env fo) (s : stmt) : list tag :=
     match s with
-    | SDecl _ _ e | SAssign _ e | SReturn e => dflags r e
-    | SCompound i op e =>
+    | SDecl _ _ e | SAssign _ e | SReturn e | SSAssign _ e => dflags r e
+    | SStateDecl i _ e => match r (st_flag i) with VI 1 => [] | _ => dflags r e end
+    | SCompound i op e | SSCompound i op e =>
         dflags r e ++ match eval r e with Ok v => compound_flags r i op v | _ => [] end
     | SIf c th el =>
         dflags r c ++
@@ -296,3 +297,21 @@ End Dyn.
 
 Definition dyn_flags (fo : float_ops) (f : func) (args : list (val fo)) : list tag :=
   dflags_block fo (f_tys f) (env_of fo args) (f_body f).
+
+(* per invocation of a sequence (see Spec.spec_calls); an invocation inherits the flags of the
+   earlier ones: a divergence there may have left a different persisted state *)
+Fixpoint dyn_flags_from (fo : float_ops) (f : func) (sv : list nat) (prev : env fo) (acc : list tag)
+    (calls : list (list (val fo))) : list (list tag) :=
+  match calls with
+  | [] => []
+  | a :: rest =>
+      let r0 := carry fo sv prev a in
+      let fl := acc ++ dflags_block fo (f_tys f) r0 (f_body f) in
+      fl :: match exec_block fo (f_tys f) r0 (f_body f) with
+            | Ok (Ret _ r') => dyn_flags_from fo f sv r' fl rest
+            | _ => map (fun _ => fl) rest
+            end
+  end.
+Definition dyn_flags_calls (fo : float_ops) (f : func) (sv : list nat) (calls : list (list (val fo)))
+  : list (list tag) :=
+  dyn_flags_from fo f sv (fun _ => VI 0) [] calls.
